@@ -17,6 +17,7 @@ import QSP.Model.Cli
 import QSP.Model.Interleave
 import QSP.Model.Completion
 import QSP.Model.Decomp
+import QSP.Model.LinSys
 open QSP QSP.Proto
 
 def bad : String := "bad-op"
@@ -278,6 +279,12 @@ def handle (toks : List String) : String :=
     match par.toNat?, bits.toNat?, j.toNat?, parseRatList r with
     | some p, some b, some j, some r => showExcept showRatList (jacCol p b r j)
     | _, _, _, _ => bad
+  | ["lin.sys", ldeg, ai, ax] =>
+    match ldeg.toNat?, parseRatList ai, parseRatList ax with
+    | some l, some ai, some ax =>
+      let r := linSysQ ai ax l
+      s!"{";".intercalate (r.1.map showRatList)} {showRatList r.2}"
+    | _, _, _ => bad
   | ["seq.merge", a, b] =>
     match parseRatList a, parseRatList b with
     | some a, some b => showRatList (mergeAnglesQ a b)
